@@ -170,8 +170,8 @@ func (r *Report) Compare(m *Model, caseLine string, impl func(string) string, sh
 	}
 	orig := caseLine
 	shrunk := false
-	if shrink != nil {
-		for rounds := 0; rounds < 200; rounds++ {
+	if shrink != nil && r.Histogram["DISAGREE:correspondence"] < 3 {
+		for rounds := 0; rounds < 60; rounds++ {
 			progress := false
 			for _, cand := range shrink(caseLine) {
 				g, w := impl(cand), m.Ask(cand)
